@@ -83,6 +83,25 @@ if not changed:
     finally:
         idx.clear()
         idx.update(full)
+# an application that subclasses library packet classes (to add behaviour, or as its own packet types) does not change the
+# library's tables: every class of every table, and every base class they have inside the library, gets a user subclass
+if not changed:
+    seen, user = set(), []
+    for pv in sup[::7] + sup[-3:]:
+        for tn, m in mods.items():
+            for k in m.get_packets(ctxs[pv]):
+                for base in k.__mro__:
+                    if base.__module__.startswith('minecraft.') and base not in seen:
+                        seen.add(base)
+                        user.append(type('User' + base.__name__, (base,), {'__module__': 'application'}))
+    for pv, c in ctxs.items():
+        try:
+            after = table(c)
+        except Exception as e:
+            after = {'error': type(e).__name__}
+        if after != before[pv]:
+            tn = next((t for t in before[pv] if after.get(t) != before[pv][t]), 'error')
+            changed.append({'proto': pv, 'inserted': 'index map untouched; %d user subclasses of library packet classes defined' % len(user), 'table': tn, 'before': before[pv].get(tn), 'after': after.get(tn, after)})
 def dup(c):
     ids = [i for i, _k in c['after']] if isinstance(c['after'], list) else []
     return len(ids) != len(set(ids))
@@ -307,7 +326,7 @@ def run(chk):
         for c in json.loads(p.stdout.decode()):
             ids = [i for i, _k in c['after']] if isinstance(c['after'], list) else []
             dup = sorted(set(i for i in ids if ids.count(i) > 1))
-            what = ('protocol %d %s, asked through a context created before the tables were rebuilt (%s): ' % (c['proto'], c['table'], c['inserted'] if 'index map' in str(c['inserted']) else 'version %r inserted' % c['inserted']) +
+            what = ('protocol %d %s, %s (%s): ' % (c['proto'], c['table'], 'asked again after' if 'user subclasses' in str(c['inserted']) else 'asked through a context created before the tables were rebuilt', c['inserted'].replace('index map untouched; ', '') if 'index map' in str(c['inserted']) else 'version %r inserted' % c['inserted']) +
                     ('classes %s share id %s' % ([k.split(':')[-1] for i, k in c['after'] if i == dup[0]], dup[0]) if dup else 'the table changed (%s)' % (str(c['after'])[:120])))
             chk.violation('extension', 'extension:%d:%s' % (c['proto'], c['table']), {'case': c}, what)
     connection_histories(chk, t)
